@@ -354,7 +354,52 @@ def ignore_lists_problems():
     return problems
 
 
+ISOLATION_CONFIGS = [
+    ("IGN_DOC", dict(all_classes_mode=True, namespaces_to_ignore=["http://o.org/"])),
+    ("IGN_DOC", dict(all_classes_mode=True, namespaces_to_ignore=["http://k.org/"])),
+    ("IGN_DOC", dict(all_classes_mode=True, inverse_paths=True)),
+    ("SEL_DOC", dict(target_classes=["http://ex.org/D"], instantiation_property="http://ex.org/isa")),
+    ("SEL_DOC", dict(shape_map_raw="{FOCUS ex:p _}@<http://sh.org/B>", namespaces_dict={"http://ex.org/": "ex", "http://sh.org/": "sx"})),
+    ("MIN_IRI_DOC", dict(all_classes_mode=True, examples_mode="all", detect_minimal_iri=True)),
+    ("IGN_DOC", dict(all_classes_mode=True, namespaces_dict={"http://o.org/": "o", "http://ex.org/": "ex"}, namespaces_to_ignore=["http://o.org/c/"])),
+    ("SEL_DOC", dict(all_classes_mode=True, namespaces_to_ignore=["http://ex.org/"], disable_comments=True)),
+    ("IGN_DOC", dict(all_classes_mode=True, shape_qualifiers_mode=False, namespaces_for_qualifier_props=["http://k.org/"], instances_report_mode="abs")),
+]
+
+
+def _isolation_run(i):
+    from shexer.shaper import Shaper
+    doc_name, kw = ISOLATION_CONFIGS[i]
+    return Shaper(raw_graph=globals()[doc_name], **kw).shex_graph(string_output=True)
+
+
+def isolation_problems():
+    """Results depend only on the arguments: each configuration run after (and between) other Shapers of the same process gives the text it gives alone in a fresh
+    interpreter.  Catches state that outlives a Shaper (module-level / class-level caches keyed too coarsely)."""
+    import subprocess
+    import sys
+    import os
+    env = dict(os.environ)
+    refs = []
+    for i in range(len(ISOLATION_CONFIGS)):
+        p = subprocess.run([sys.executable, "-W", "ignore", "-c", "import sys\nfrom harness import api\nsys.stdout.write(api._isolation_run(%d))" % i],
+                           capture_output=True, text=True, env=env, cwd=os.path.dirname(os.path.dirname(os.path.abspath(__file__))))
+        if p.returncode != 0:
+            return ["configuration %d alone in a fresh interpreter failed: %s" % (i, p.stderr[-300:])]
+        refs.append(p.stdout)
+    problems = []
+    order = list(range(len(ISOLATION_CONFIGS))) + list(reversed(range(len(ISOLATION_CONFIGS))))
+    for i in order:
+        got = _isolation_run(i)
+        if got != refs[i]:
+            problems.append("configuration %r after other Shapers in the same process differs from the same configuration alone:\n%s\n--- alone\n%s" % (ISOLATION_CONFIGS[i][1], got, refs[i]))
+            break
+    return problems
+
+
 def _history_more(name):
+    if name == "cross-shaper-isolation":
+        return isolation_problems()
     if name == "ignore-several-lists":
         return ignore_lists_problems()
     if name == "all-classes-plus-shape-map":
